@@ -428,19 +428,6 @@ class _:
 KEY3 = TTuple([STR, INT, INT])
 
 
-@contract("tola.assembly.build_utils.ScaffoldNamer.make_scaffold_name", status="TRUSTED")
-class _:
-    # at call sites: works out name / rank / haplotype from the tags and keeps them in the namer; the scaffold it is
-    # given is only read (the order-insensitivity of the tag loop is the custom contract in specs/build_utils.py)
-    params = {"self": TRef("ScaffoldNamer"), "scaffold": TRef("Scaffold"), "fragment_tags": TOpt(TSet(STR))}
-    defaults = {"fragment_tags": None}
-    result = NONE
-    modifies = staticmethod(lambda o: [("field", "ScaffoldNamer", f, o.self) for f in (
-        "current_scaffold_name", "current_rank", "current_haplotype", "haplotig_n", "unloc_n", "target_tags", "primary_haplotype")]
-        + [("dict-maps", STR, STR)])
-    raises = {e: (lambda o: True) for e in ("TaggingError", "ValueError")}
-
-
 @contract("tola.assembly.scaffold.Scaffold.fragment_tags", status="TRUSTED")
 class _:
     params = {"self": TRef("Scaffold")}
@@ -540,9 +527,9 @@ class _:
     modifies = staticmethod(lambda o: [("fresh-objs", "Scaffold", ["name", "rows", "tag", "haplotype", "rank", "original_name", "original_tags"]),
                                        ("fresh-lists", ROW), ("list", TRef("Scaffold"), o.self.scaffolds), ("dict-maps", STR, STR),
                                        *[("field", "ScaffoldNamer", f, o.self.scaffold_namer) for f in (
-                                           "current_scaffold_name", "current_rank", "current_haplotype", "haplotig_n", "unloc_n", "target_tags", "primary_haplotype")],
+                                           "current_scaffold_name", "current_rank", "current_haplotype", "haplotig_n", "unloc_n", "target_tags", "primary_haplotype", "unloc_scaffolds")],
                                        ("alloc",), ("ralloc",)])
-    raises = {e: (lambda o: True) for e in ("TaggingError", "ValueError", "TypeError")}
+    raises = {e: (lambda o: True) for e in ("TaggingError", "ValueError", "TypeError", "IndexError")}
 
     loops = {
         0: LoopSpec(kind="for", iter_src="input_asm.scaffolds", types={"new_scffld": TOpt(TRef("Scaffold")), "last_added_i": TOpt(INT)},
